@@ -471,7 +471,12 @@ impl RawAutomaton {
         let mut power_transitions = Vec::with_capacity(self.transitions.len());
         let mut final_states =
             FxHashSet::with_capacity_and_hasher(self.final_states.len(), FxBuildHasher);
-        let markers = Vec::from_iter(self.markers.clone());
+        let mut markers = Vec::from_iter(self.markers.clone());
+        // An automaton without transitions uses no marker: it is completed over
+        // the default marker.
+        if completion && markers.is_empty() {
+            markers.push(0);
+        }
 
         while let Some(power_state) = pending.pop() {
             if let Entry::Vacant(entry) = visited.entry(power_state.clone()) {
@@ -533,7 +538,7 @@ impl RawAutomaton {
             initial_state: 0,
             final_states,
             transitions,
-            markers: self.markers,
+            markers: markers.into_iter().collect(),
         }
     }
 
@@ -681,7 +686,7 @@ impl RawAutomaton {
             // False in general, but true in many practical cases. Will be double checked in the
             // next instruction.
             deterministic: false,
-            complete: automata.iter().all(|a| a.complete),
+            complete: !automata.is_empty() && automata.iter().all(|a| a.complete),
             final_states,
             initial_state,
             markers,
